@@ -299,10 +299,23 @@ def vMirrorSlack (vals : List (Option Rat)) : Rat :=
 
 def vMinRat (l : List Rat) : Rat := l.foldl min 1
 
+/-- each chromosome's ranges are adjacent (decidable form of `ChromGrouped`) -/
+def vGroupedGo (closed : List String) (cur : Option String) : List (String × Int × Int) → Bool
+  | [] => true
+  | g :: t =>
+    if cur == some g.1 then vGroupedGo closed cur t
+    else if closed.contains g.1 then false
+    else vGroupedGo (match cur with | some c => c :: closed | none => closed) (some g.1) t
+
+def vGrouped (segs : List (String × Int × Int)) : Bool := vGroupedGo [] none segs
+
 /-- clauses of `baf_by_ranges` -/
 def vBafSpec (tb : VTable) (segs : List (String × Int × Int)) (above : Option Bool) (boost : Bool)
     (impl : List (Option Rat)) : List String :=
   if impl.length != segs.length then ["one_value_per_range"] else
+  -- a table whose chromosomes are interleaved is not a segment table (results come back chromosome
+  -- by chromosome): model only
+  if !vGrouped segs then [] else
   let exp := segs.map (specBaf tb.paired boost above tb.rows)
   let z := (segs.zip (impl.zip exp))
   let inside (g : String × Int × Int) := (tb.rows.filter isHet).filter (overlaps g)
